@@ -243,7 +243,9 @@ def _check_body(ctx, res) -> None:
     # ---- R11.5 undo(drop=True) drops exactly the changes it moved to the redo list
     m = hist.methods["undo"]
     cfg = CFG(m.node)
-    counts = [norm(c.args[0]) for c in calls_in(m.node) if is_self_attr(c.func) and c.func.attr.startswith("_perform") and c.args]
+    # (the step may be performed inside a private helper shared with redo: read in place)
+    counts = [norm(c.args[0]) for c in calls_in(common.inline_private_calls(idx, m, keep=("_perform_undos", "_perform_redos"))) if is_self_attr(c.func) and c.func.attr.startswith("_perform") and c.args
+              and not is_self_attr(c.args[0])]
     drop_nodes = []
     for n in cfg.nodes:
         if n.kind == "stmt" and n.ast is not None and any(canon(e) == red for e in common.mutated_exprs(n.ast)):
